@@ -81,12 +81,26 @@ func VerifC05Dial() {
 	dialN := 0
 	t := &Transport{ctx: ctx, le: logrus.NewEntry(logrus.New()), peerID: local.id, privKey: local.priv, uuid: 9,
 		laddr: peer.NewNetAddr(local.id), handler: h, opts: &Opts{}, links: map[string]*Link{}, dialers: map[string]*Dialer{}}
+	// the dialed address may resolve to a different address string (a host name dialed, an IP connected)
+	resolved := "addr1"
+	if rt.Choose("resolvesToOtherString", 2) == 1 {
+		resolved = "10.0.0.7:4000"
+	}
 	t.dialFn = func(ctx context.Context, addr string) (*quic.Conn, net.Addr, error) {
 		who := answers[script[dialN]]
 		dialN++
-		c := c05Conn(who, addr)
+		c := c05Conn(who, resolved)
 		conns = append(conns, c)
-		return c, c05Addr(addr), nil
+		return c, c05Addr(resolved), nil
+	}
+	// optionally the impostor has already connected inbound from the address that is about to be dialed
+	inbound := resolved == "addr1" && rt.Choose("impostorConnectedInbound", 2) == 1
+	var inLink *Link
+	if inbound {
+		var ierr error
+		inLink, ierr = t.HandleSession(ctx, c05Conn(Y, "addr1"))
+		rt.Assert("inbound session yields a link to the impostor", ierr == nil && inLink.GetRemotePeer() == Y.id)
+		rt.Quiesce()
 	}
 	dial := func(name string) (link.Link, error, bool) {
 		var l link.Link
@@ -101,6 +115,20 @@ func VerifC05Dial() {
 	}
 	l1, err1, done1 := dial("dial1")
 	rt.Assert("the dial completes", done1)
+	if inbound {
+		// the address is occupied by a link to another peer: the dial must not report that link as X's
+		rt.Reach("address occupied by the impostor")
+		if err1 == nil && l1 != nil {
+			rt.Assert("a successful dial of X is a link whose authenticated remote peer is X", l1.GetRemotePeer() == X.id)
+		}
+		// the impostor's link goes away; then X can be dialed there
+		_ = inLink.Close()
+		rt.Quiesce()
+		script[0] = 0
+		dialN = 0
+		l1, err1, done1 = dial("dial1b")
+		rt.Assert("the dial completes", done1)
+	}
 	if script[0] == 0 {
 		rt.Reach("X answered")
 		rt.Assert("dialing X where X answers yields a link", err1 == nil && l1 != nil)
@@ -113,7 +141,7 @@ func VerifC05Dial() {
 	}
 	if script[0] == 1 {
 		rt.Assert("when another peer answers, the dial is not counted as a link to X", err1 != nil || l1 == nil)
-		lk, ok := t.LookupLinkWithAddr("addr1")
+		lk, ok := t.LookupLinkWithAddr(resolved)
 		rt.Assert("no link to the impostor stays registered for the dialed address", !ok || lk.GetRemotePeer() == X.id)
 		// a later request for X at the same address
 		l2, err2, done2 := dial("dial2")
